@@ -91,6 +91,7 @@ func (c *check) Init(tier string, seed int64) engine.Space {
 		Bounds: map[string]any{
 			"properties": pnames, "carrier_kinds": ks, "selectors": ss,
 			"instances_pair_menu": n, "instances_triple_menu": r,
+			"multi_match_selector_lists": "the selector lists after #z,T are instantiated for the ua, user, style, nest& and nestrel carriers (triples: style only)",
 			"importance":   []string{"normal", "!important (except UA sheet and hints)"},
 			"arrangements": variantName, "hints": []string{"on", "off"}, "device_media": []string{"print", "screen (pairs with hints on only)"},
 			"list_length": map[string]int{"quick": 2, "thorough": 3},
